@@ -65,6 +65,19 @@ Theorem C25_frozen_prefix_contiguous :
 Proof. exact frozen_prefix_contiguous. Qed.
 Print Assumptions C25_frozen_prefix_contiguous.
 
+(* a freeze cycle never deletes a canonical block that is not in the freezer — for every
+   batch limit, hence also for cycles capped by the limit (more blocks eligible than frozen):
+   whatever is at or above the freezer head is answered by the key-value store alone as before *)
+Theorem C25_never_deletes_unfrozen_canonical :
+  forall (keccak : blob -> hash) (parent_of : blob -> option hash) s0 bl evs t n,
+  Inv keccak parent_of s0 ->
+  In t (s0 :: visible_all parent_of bl s0 evs ++ [run parent_of bl s0 evs]) ->
+  frozen (s_fz t) <= n -> read_canonical_hash s0 n <> 0 ->
+  view_of keccak parent_of (nofreeze t) (read_canonical_hash s0 n) n =
+  view_of keccak parent_of s0 (read_canonical_hash s0 n) n.
+Proof. exact never_deletes_unfrozen_canonical. Qed.
+Print Assumptions C25_never_deletes_unfrozen_canonical.
+
 (* after a completed iteration no header is left in the key-value store at any height
    of the migrated range (genesis excepted), and every block that had a header there,
    canonical or not, is gone with its body, receipts and access list (no precondition) *)
@@ -114,5 +127,8 @@ Print Assumptions C25_wf_b_Inv.
 (* non-vacuity: a 5-block canonical chain with a 4-block side branch satisfies the
    precondition; two iterations, one of them interrupted after the append and crashed,
    migrate 4 blocks, delete the side branch and its dangling tip, keep the head *)
-Example C25_nonvacuous : ex_check = true /\ ex_leftover = true.
-Proof. split; vm_compute; reflexivity. Qed.
+(* ... and a cycle capped by a batch limit of 3 with 5 eligible blocks freezes exactly 3,
+   keeps the unfrozen canonical blocks 3 and 4 in the key-value store, and the next cycle
+   freezes the rest *)
+Example C25_nonvacuous : ex_check = true /\ ex_leftover = true /\ ex_capped = true.
+Proof. split; [|split]; vm_compute; reflexivity. Qed.
